@@ -150,6 +150,8 @@ pub fn streams(thorough: bool) -> Vec<(String, Vec<u8>)> {
     }
     s.extend_from_slice(b"GET /trunc HTTP/1.1\r\nX-a");
     out.push(("five_pipelined_then_truncated".into(), s));
+    // one read completes a request and leaves the next one in mid-body
+    out.push(("20_compact_get_put6_get".into(), b"GET /a HTTP/1.1\r\n\r\nPUT /b HTTP/1.1\r\nContent-Length: 6\r\n\r\nabcdefGET /c HTTP/1.0\r\n\r\n".to_vec()));
     // many minimal requests completing inside one read
     for count in [20usize, 56] {
         let mut s = vec![];
@@ -167,7 +169,7 @@ pub fn streams(thorough: bool) -> Vec<(String, Vec<u8>)> {
     out.push(("good_then_oversized_declaration".into(), s));
     if !thorough {
         // quick: keep a representative third
-        let keep: Vec<(String, Vec<u8>)> = out.into_iter().enumerate().filter(|(i, x)| i % 3 == 0 || x.0.starts_with("20_minimal")).map(|(_, x)| x).collect();
+        let keep: Vec<(String, Vec<u8>)> = out.into_iter().enumerate().filter(|(i, x)| i % 3 == 0 || x.0.starts_with("20_")).map(|(_, x)| x).collect();
         return keep;
     }
     out
